@@ -298,7 +298,7 @@ def probes(res, sigs):
 def correspondence(res):
     from props import c02
     W = 14
-    n_specs = 70 if res.tier == "quick" else 500
+    n_specs = 70 if res.tier == "quick" else 280
     terms, infos = c02.parallel(res, gen_worker, [(res.seed * 1000 + w, max(1, n_specs // W), 6) for w in range(W)])
     codes = common.run_case_codes("C05", "prop", HEADER, terms, "c05_prop", chunk=40, ctype=CT)
     res.coverage["rule"] = ("random grammars (str+regex incl. empty-matching regexes, bytes+bits; optional parts, nested repetitions) x members of their "
@@ -328,7 +328,7 @@ def correspondence(res):
             res.violation(what, infos[i])
     probe_utf8_text_in_binary(res, sigs)
     probes(res, sigs)
-    roundtrip_constrained(res, 10 if res.tier == "quick" else 50)
+    roundtrip_constrained(res, 10 if res.tier == "quick" else 40)
     if broken:
         raise broken
 
